@@ -1,3 +1,104 @@
 package main
 
-func selftestMain(args []string) int { return 0 }
+import (
+	"fmt"
+	"os"
+	"path/filepath"
+	"sort"
+	"strconv"
+	"sync"
+	"time"
+
+	"verifharness/sim"
+)
+
+// selftestMain is `./check selftest [runs]`: the determinism self-test. For
+// every simulated property the same run indices are executed in many separate
+// worker processes at GOMAXPROCS 1, 4 and 16 (two processes each), and the
+// per-run hashes - event logs of every pipeline execution, observable results,
+// violation signatures - are compared. Any difference means the simulator (or
+// the code under test) is not a pure function of the seed. It is a separate
+// command and never changes the verdict of a property check.
+func selftestMain(args []string) int {
+	runs := 300
+	if len(args) > 0 {
+		if n, err := strconv.Atoi(args[0]); err == nil {
+			runs = n
+		}
+	}
+	start := time.Now()
+	seed := seedFromEnv()
+	bin := build(false, true)
+	tmp, _ := os.MkdirTemp(buildDir, "selftest-")
+	defer os.RemoveAll(tmp)
+	propsList := []string{"C06", "C07", "C08", "C09", "C11", "C13", "C14", "C16", "C19"}
+	type key struct {
+		prop string
+		idx  int
+	}
+	var mu sync.Mutex
+	seen := map[key]map[uint64][]string{}
+	nproc := 0
+	sem := make(chan struct{}, workersFromEnv())
+	var wg sync.WaitGroup
+	for _, prop := range propsList {
+		n := runs
+		if prop == "C13" {
+			n = runs / 10
+		}
+		for _, g := range []int{1, 4, 16} {
+			for rep := 0; rep < 2; rep++ {
+				wg.Add(1)
+				go func(prop string, g, rep, n int) {
+					defer wg.Done()
+					sem <- struct{}{}
+					defer func() { <-sem }()
+					r := &runner{prop: prop, cfg: props[prop], tier: "quick", seed: seed, bin: bin, tmp: tmp}
+					out := filepath.Join(tmp, fmt.Sprintf("%s-%d-%d.json", prop, g, rep))
+					r.runOne([]string{"VERIF_FROM=0", "VERIF_TO=" + strconv.Itoa(n), "VERIF_OUT=" + out, "VERIF_RUNHASHES=1",
+						"VERIF_NOSHRINK=1", "GOMAXPROCS=" + strconv.Itoa(g), "VERIF_REPLAYS=" + filepath.Join(tmp, "replays")}, 20*time.Minute)
+					var wr sim.WorkerResult
+					if !readJSON(out, &wr) || !wr.Complete {
+						fmt.Printf("selftest: %s GOMAXPROCS=%d rep %d: worker did not complete\n", prop, g, rep)
+						return
+					}
+					mu.Lock()
+					nproc++
+					for idx, h := range wr.RunHashes {
+						k := key{prop, idx}
+						if seen[k] == nil {
+							seen[k] = map[uint64][]string{}
+						}
+						seen[k][h] = append(seen[k][h], fmt.Sprintf("P%d/%d", g, rep))
+					}
+					mu.Unlock()
+				}(prop, g, rep, n)
+			}
+		}
+	}
+	wg.Wait()
+	bad := 0
+	var keys []key
+	for k := range seen {
+		keys = append(keys, k)
+	}
+	sort.Slice(keys, func(i, j int) bool {
+		if keys[i].prop != keys[j].prop {
+			return keys[i].prop < keys[j].prop
+		}
+		return keys[i].idx < keys[j].idx
+	})
+	for _, k := range keys {
+		if len(seen[k]) > 1 {
+			bad++
+			if bad <= 20 {
+				fmt.Printf("selftest: NONDETERMINISTIC %s run %d: %v\n", k.prop, k.idx, seen[k])
+			}
+		}
+	}
+	fmt.Printf("selftest: %d worker processes, %d (property, run) pairs compared across GOMAXPROCS 1/4/16 x2, %d differ, %.1fs\n", nproc, len(keys), bad, time.Since(start).Seconds())
+	if bad > 0 {
+		return 1
+	}
+	return 0
+}
